@@ -16,6 +16,7 @@ from refs import osu as ro
 from refs import sm as rs
 
 ID = "C09"
+LARGE = "abstract charts of 300 notes (4 and 7 keys) through every source x converter"
 TITLE = "Read -> convert -> write yields a valid target file with the source's timeline"
 RULE = (
     "composition search: a state is a distinct (abstract chart, source game, converter); a transition is one read / convert / write; "
